@@ -142,6 +142,8 @@ def aggregators(case):
         readable_equal(trees, tsnap, 'client params after aggregation', nc)
         fout, fnew = systems.aggregator(name, fresh=True).apply(iter(inputs), state)
         same(fout, out_snap, 'a fresh aggregator object disagrees with the long-lived one', nc)
+        same(fnew, new_snap, 'a fresh aggregator object returns a different new state than the long-lived one (state '
+             'hidden in the aggregator object)', nc)
         if hasattr(new, 'rng'):
           rngs.append(tuple(np.asarray(jax.random.key_data(new.rng) if str(new.rng.dtype).startswith('key') else new.rng)
                             .tolist()))
